@@ -784,6 +784,8 @@ pub fn c09(out: &mut dyn Write, tier: &str, rng: &mut Rng, st: &mut Stats) {
         match parse_text(text.as_bytes(), ordering) {
             Parsed::Ok(pf) => {
                 let ids = id_table(&pf);
+                // every generated fixed point converges: an evaluation that does not return is reported with its input
+                crate::watchdog::enter_div(&text, format!("C09|eval|{}|{}|DIVERGE", ser_gf(&gf, &ids), ser_real(&pf.bdd)));
                 let res = match eval_guarded(&pf) { Ok(b) => show_ns(&b), Err(_) => "PANIC".to_string() };
                 let vars: Vec<usize> = pf.vars.iter().map(|v| v.id).collect();
                 let free: Vec<usize> = pf.free_vars.iter().map(|v| v.id).collect();
